@@ -181,7 +181,10 @@ Starts ==
     <<"yash", "-e", "+e", "-u", "+u", "-c", "@C">>, <<"yash", "-f", "-h", "-b", "-v", "-x", "-s", "*">>>>
 
 StartCase(argv) ==
-  LET p == Prog(argv, <<>>) IN [argv |-> argv, k |-> p.k, mode |-> p.mode, script |-> p.script, evs |-> p.evs]
+  LET p == Prog(argv, <<>>)
+      r == ParseOpts(argv, 2, FALSE, <<>>, "sh")
+  IN [argv |-> argv, k |-> p.k, mode |-> p.mode, script |-> p.script, evs |-> p.evs,
+      cls |-> IF p.k = "run" THEN "run:" \o p.mode ELSE IF p.k = "error" /\ r.err # "" THEN "error:" \o r.err ELSE p.k]
 
 (***************************************************************************)
 (* Exploration.                                                            *)
@@ -212,9 +215,22 @@ View == <<S, IF Len(w) = 0 THEN root ELSE 0>>
 (***************************************************************************)
 (* One line per state; the theorems.                                       *)
 (***************************************************************************)
+\* cls: which clause of the argument syntax decides a `set` command (census for the evidence)
+ClassOf(op) ==
+  IF op.k # "set" \/ ~WordsOk(op.args) THEN op.k
+  ELSE LET args == ExpandArgs(S, op.args)
+           r == ParseOpts(args, 1, "portable" \in S.on, <<>>, "set")
+       IN IF Len(args) = 0 THEN "set:variables"
+          ELSE IF args \in {<<"-o">>, <<"+o">>} THEN "set:listing"
+          ELSE IF r.unspec THEN "set:open"
+          ELSE IF r.err # "" THEN "set:" \o r.err
+          ELSE IF r.i > Len(args) THEN "set:options"
+          ELSE IF Len(r.chg) = 0 THEN "set:operands" ELSE "set:options+operands"
+
 Outcome(op) ==
   LET R == Exec(S, 0, op) IN
-  [unspec |-> R.unspec, evs |-> IF R.unspec THEN <<>> ELSE R.evs \o (IF R.cut THEN <<>> ELSE <<EvE(R.st)>>)]
+  [unspec |-> R.unspec, cls |-> ClassOf(op),
+   evs |-> IF R.unspec THEN <<>> ELSE R.evs \o (IF R.cut THEN <<>> ELSE <<EvE(R.st)>>)]
 
 Flip == [on |-> (OptNames \ S.on), pos |-> <<"t">>, arg0 |-> "t0"]     \* a very different state
 
